@@ -13,6 +13,9 @@ McFlags == { <<0, 0, 0, 0>>, <<1, 0, 0, 0>>, <<0, 1, 0, 0>>, <<0, 0, 1, 0>>, <<0
 \* SubFix_sim.cfg: random files for the real tools; repeats are weights
 SimClasses == <<"ins", "ins", "ins", "ins", "ins", "sub", "sub", "sub", "rem", "begin", "else", "end", "end",
                 "org", "lab", "lab", "lab", "keep", "data", "bytes", "if", "gap">>
+\* SubFix_pairs.cfg: every pair of directives (all flag combinations) on the first of three instructions
+PairClasses == <<"sub", "ins">>
+NoFeatures == { {} }
 McFeatures == { {"rem", "begin", "lab", "gap"} }
 Optional == {"rem", "begin", "org", "lab", "keep", "data", "bytes", "if", "gap"}
 SimFeatures == { f \in SUBSET Optional : Cardinality(f) <= 3 /\ Cardinality(f \cap {"keep", "data", "bytes"}) <= 1 }
